@@ -1233,6 +1233,7 @@ def monitor(lines, out, props):
           name = d["name"]
           if name == "RESYNC":
               next_id = None
+              resynced = True
               continue
           if o[0] == [-77]:
               fails.append("panic: %s panicked" % show_op(d))
